@@ -36,7 +36,8 @@ CONSTANTS Scenarios,   \* set of histories (non-empty sequences of lifecycle con
                        \*        are still under way are then counted for the new attempt (the code as written has no way to
                        \*        tell them apart) - pinned variant, violates StartedOnlyWhenAll
           MaxProcs     \* number of started node processes the environment may put into a condition other than alive before
-                       \* they are stopped (already gone, dying while terminated, ignoring SIGTERM)
+                       \* they are stopped (already gone, dying while terminated, ignoring SIGTERM, ignoring SIGTERM and
+                       \* gone when SIGKILL is sent)
 
 MaxIp == 2
 RIps == 1..MaxIp
@@ -54,12 +55,14 @@ VARIABLES scn,                      \* configuration of the current lifecycle
                                    \*        running (Mechanic.nodes non-empty), cfgs (Mechanic.node_configs non-empty)
           nd,                      \* nd[n]: observations per node id: starts, stops (look-ups of its process by
                                    \*        ProcessLauncher.stop = the node was handled by a stop), term (terminate() calls),
+                                   \*        kills (kill() calls),
                                    \*        sysm (system metrics stored by its telemetry), stored (results stored by
                                    \*        Mechanic._add_results), shut (metrics produced while the node was shut down that are part of
                                    \*        the stored results), inst (install dir absent/present/removed),
-                                   \*        proc (its OS process: alive | early | late | stubborn, set by the environment)
+                                   \*        proc (its OS process: alive | early | late | stubborn | vanish, set by the environment)
           ho,                      \* ho[h]: number of flush(refresh=True) of the host's system metrics store
-          env,                     \* environment: up (remote daemons in the convention), left, fault, stopSent, resets, torn, procs
+          env,                     \* environment: up (remote daemons in the convention), left, fault, stopSent, resets, torn, procs,
+                                   \*              esc (number of exceptions that escaped ProcessLauncher.stop; the model never raises one)
           act                      \* last action (hidden by VIEW)
 
 chans == <<rc2m, m2d, d2m, sys2d, d2n, n2m, m2n, n2d>>
@@ -105,7 +108,7 @@ Reset(k) == [Msg("ResetRelativeTime") EXCEPT !.a = k]
 A(name, a, b) == [name |-> name, a |-> a, b |-> b]
 
 InitNa == [exists |-> FALSE, alive |-> FALSE, eng |-> "none", running |-> FALSE, cfgs |-> FALSE]
-InitNd == [starts |-> 0, stops |-> 0, term |-> 0, sysm |-> 0, stored |-> 0, shut |-> 0, inst |-> "absent", proc |-> "alive",
+InitNd == [starts |-> 0, stops |-> 0, term |-> 0, kills |-> 0, sysm |-> 0, stored |-> 0, shut |-> 0, inst |-> "absent", proc |-> "alive",
            race |-> "none"]
 InitMech == [alive |-> TRUE, status |-> "none", children |-> <<>>, resp |-> 0, ext |-> FALSE]
 InitDisp == [exists |-> FALSE, alive |-> FALSE, pending |-> <<>>, remotes |-> [ip \in RIps |-> <<>>], listening |-> FALSE]
@@ -120,7 +123,7 @@ InitFor(s, up) ==
     /\ na = [h \in Hosts(s) |-> InitNa]
     /\ nd = [n \in NodeIds(s) |-> InitNd]
     /\ ho = [h \in Hosts(s) |-> 0]
-    /\ env = [up |-> up, left |-> {}, fault |-> "none", stopSent |-> FALSE, resets |-> 0, torn |-> FALSE, procs |-> 0, cyc |-> 1, stale |-> 0]
+    /\ env = [up |-> up, left |-> {}, fault |-> "none", stopSent |-> FALSE, resets |-> 0, torn |-> FALSE, procs |-> 0, cyc |-> 1, stale |-> 0, esc |-> 0]
     /\ act = A("Init", 0, "")
 
 Init == \E hist \in Scenarios : \E up \in SUBSET RemoteTargets(hist[1]) : InitFor(hist[1], up) /\ plan = Tail(hist)
@@ -138,16 +141,21 @@ ToD(q, m) == IF DAlive THEN Append(q, m) ELSE q
 
 (* Mechanic.stop_engine() on entry h: launcher.stop(nodes), flush_metrics(refresh=True), store results per node,        *)
 (* provisioner.cleanup per node configuration.  ProcessLauncher.stop looks every node's process up, terminates it       *)
-(* unless it is already gone, and stores the node's system metrics in any case.                                         *)
+(* unless it is already gone, kills it when it is still there after the grace period (whether or not it is gone by      *)
+(* then), and stores the node's system metrics in any case - whatever happened to the nodes before it in the list.     *)
 (* r = "known" | "unknown": whether the race store of that host knows the race (Mechanic._current_race()); with the   *)
 (* file race store it never does on a remote host, and not on the coordinator's host before the race was stored.      *)
 (* Unknown: exceptions.NotFound is caught and logged, no results are added to the race, everything else goes on.       *)
+(* conditions the environment may put a started node's OS process into; Survivors are still there after SIGTERM + grace period *)
+ProcConds == {"early", "late", "stubborn", "vanish"}
+Survivors == {"stubborn", "vanish"}
 RaceChoice(h, r) == /\ r \in {"known", "unknown"} /\ (IpOf(scn, h) # 0 => r = "unknown")
 StopNd(h, r) == [n \in NodeIds(scn) |->
                 IF HostOf(scn, n) = h
                 THEN [nd[n] EXCEPT !.stops = IF na[h].running THEN @ + 1 ELSE @,
                                    !.race = IF na[h].running THEN r ELSE @,
                                    !.term = IF na[h].running /\ nd[n].proc # "early" THEN @ + 1 ELSE @,
+                                   !.kills = IF na[h].running /\ nd[n].proc \in Survivors THEN @ + 1 ELSE @,
                                    !.sysm = IF na[h].running THEN @ + 1 ELSE @,
                                    !.shut = IF na[h].running /\ r = "known" THEN @ + 1 ELSE @,
                                    !.stored = IF na[h].running /\ r = "known" THEN @ + 1 ELSE @,
@@ -532,10 +540,11 @@ RemoteLeaves(ip) ==
     /\ act' = A("RemoteLeaves", ip, "")
 
 (* the OS process of a started, not yet stopped node gets into condition c: "early" = it is gone before the engine is *)
-(* stopped (crash, OOM kill), "late" = it dies while being terminated, "stubborn" = it ignores SIGTERM.  Nobody is told. *)
+(* stopped (crash, OOM kill), "late" = it dies while being terminated, "stubborn" = it ignores SIGTERM and dies on      *)
+(* SIGKILL, "vanish" = it is still there after the grace period but gone when SIGKILL is sent.  Nobody is told.        *)
 NodeProcess(n, c) ==
     /\ env.procs < MaxProcs
-    /\ n \in NodeIds(scn) /\ c \in {"early", "late", "stubborn"}
+    /\ n \in NodeIds(scn) /\ c \in ProcConds
     /\ NAlive(HostOf(scn, n)) /\ na[HostOf(scn, n)].running /\ nd[n].proc = "alive"
     /\ nd' = [nd EXCEPT ![n].proc = c]
     /\ env' = [env EXCEPT !.procs = @ + 1]
@@ -572,7 +581,7 @@ Next == \/ MRecvStartEngine \/ MRecvReset \/ MWakeup \/ MRecvFailureD \/ MRecvSt
         \/ MRecvStaleAck
         \/ \E ip \in RIps : RemoteJoins(ip)
         \/ \E ip \in RIps : RemoteLeaves(ip)
-        \/ \E n \in NodeIds(scn) : \E c \in {"early", "late", "stubborn"} : NodeProcess(n, c)
+        \/ \E n \in NodeIds(scn) : \E c \in ProcConds : NodeProcess(n, c)
 
 Spec == Init /\ [][Next]_vars
 FairSpec == Spec /\ WF_view(Progress)
@@ -590,10 +599,17 @@ StopAtMostOnce == \A n \in NodeIds(scn) : nd[n].stops <= 1
 (* process was already gone), its system metrics were stored and its host's metrics store flushed, its results       *)
 (* stored, and its installation removed unless preserve is set                                                       *)
 (* (the results are added to the race only where the host's race store knows the race; otherwise that is logged)       *)
-NodeDone(n) == /\ nd[n].stops = 1 /\ (nd[n].proc # "early" => nd[n].term = 1)
+NodeDone(n) == /\ nd[n].stops = 1 /\ (nd[n].proc # "early" => nd[n].term = 1) /\ (nd[n].proc \in Survivors => nd[n].kills = 1)
                /\ nd[n].sysm >= 1 /\ (nd[n].race = "known" => nd[n].stored >= 1) /\ ho[HostOf(scn, n)] >= 1
                /\ nd[n].inst = IF scn.preserve THEN "present" ELSE "removed"
 StoppedOnlyWhenAll == (Stopped /\ ~scn.ext) => \A n \in NodeIds(scn) : nd[n].starts >= 1 => NodeDone(n)
+
+(* a host confirms (NodesStopped under way to the MechanicActor) only after every node it started is done *)
+AckedOnlyWhenDone == \A h \in Hosts(scn) : (\E i \in 1..Len(n2m[h]) : n2m[h][i].k = "NodesStopped") =>
+                        \A n \in NodeIds(scn) : (HostOf(scn, n) = h /\ nd[n].starts >= 1) => NodeDone(n)
+
+(* stopping the nodes of a host never fails because of what has become of a node's process *)
+StopNeverRaises == env.esc = 0
 
 (* stop, THEN flush, THEN store: whatever a node's telemetry produces while the node is shut down (final index size, *)
 (* bytes written, ...) is part of the system results stored for that node (the metrics store buffers: only flushed    *)
@@ -630,7 +646,7 @@ ExternalAnswered == (scn.ext /\ Quiescent) => /\ NN(scn) > 0 => Started
 StopAcked == (Quiescent /\ env.stopSent) => (Stopped \/ Failed)
 
 TypeOK == /\ mech.resp \in 0..MaxHosts /\ Len(mech.children) <= MaxHosts /\ mtimers \in 0..MaxResets
-          /\ \A n \in NodeIds(scn) : nd[n].starts \in 0..1 /\ nd[n].stops \in 0..1 /\ nd[n].stored \in 0..1 /\ nd[n].term \in 0..1 /\ nd[n].sysm \in 0..1 /\ nd[n].shut \in 0..1
+          /\ \A n \in NodeIds(scn) : nd[n].starts \in 0..1 /\ nd[n].stops \in 0..1 /\ nd[n].stored \in 0..1 /\ nd[n].term \in 0..1 /\ nd[n].kills \in 0..1 /\ nd[n].sysm \in 0..1 /\ nd[n].shut \in 0..1
           /\ \A h \in Hosts(scn) : ho[h] \in 0..1
 
 (* liveness under weak fairness of the actors and the cooperating environment *)
